@@ -9,6 +9,9 @@ Decided statically:
   C19.median  the median family indexes only a list derived from sorted(..), never the raw parameter (order
               invariance); checked on library code with the independent .ckl front end
   C19.alias   set-algebra library functions do not alias an operand as their result (shared with C16.ckl)
+  C19.accum   library code never grows a list accumulator with `R = e + R` / `R = R + e` (e the loop element): `+`
+              splices list / set elements and propagates NULL, so reverse / flatten / filter ... would not keep
+              such elements as elements
   C19.names   every name a bundled library function uses is provided by its own module (definitions, parameters,
               loop variables, imports, bind_native) or by the root environment of the DEFAULT configuration
               (Sys and Core unqualified, not the legacy imports): otherwise the function - union, prod, ... -
@@ -57,9 +60,49 @@ def names(ctx, model):
                      f"it is called", expr=f"{fn}: {nm}", file=f"src/ckl/modules/{fn}", line=line)
 
 
+def list_accumulators(ctx, model):
+    """Library code: a LIST accumulator (`def R = []`) grown inside a loop with `R = e + R` / `R = R + e`, e being the
+    loop element.  `+` is overloaded by the kinds of BOTH operands: an element that is itself a list / set is spliced
+    in, a NULL element makes the whole result NULL - reverse, flatten, filter ... must use append / insert_at."""
+    n = 0
+    for fn, (src, _) in sorted(model.ckl_modules.items()):
+        try:
+            toks = cklsrc.tokenize(src)
+            funcs = cklsrc.functions(toks)
+        except cklsrc.CklTokenError as e:
+            ctx.broken(f"modules/{fn}", str(e))
+        for f in funcs:
+            body = cklsrc.own_body(f)
+            init = {}        # accumulator -> (index of its latest `def R = <..>`, is list literal)
+            loopvars = []
+            for i in range(len(body) - 3):
+                t = body[i]
+                if t.is_id("def") and body[i + 1].kind == "id" and body[i + 2].is_p("="):
+                    init[body[i + 1].text] = body[i + 3].is_p("[") and i + 4 < len(body) and body[i + 4].is_p("]")
+                if t.is_id("for") and body[i + 1].kind == "id":
+                    loopvars.append(body[i + 1].text)
+                if t.kind == "id" and body[i + 1].is_p("=") and i + 4 < len(body) and body[i + 3].is_p("+") \
+                        and not body[i - 1].is_id("def"):
+                    r, a, b = t.text, body[i + 2].text, body[i + 4].text
+                    if init.get(r) and ((a == r and b in loopvars) or (b == r and a in loopvars)) \
+                            and (i + 5 >= len(body) or body[i + 5].text in (";", "end")):
+                        e = b if a == r else a
+                        n += 1
+                        ctx.fail("C19.accum", f"modules/{fn}:{f.qual}", None,
+                                 f"{f.qual} grows its list `{r}` with `{r} = {a} + {b}`: for an element `{e}` that is a "
+                                 f"list or set `+` concatenates / unites instead of adding one element, and a NULL "
+                                 f"element makes the result NULL", expr=f"{f.qual}: {r} = {a} + {b}",
+                                 file=f"src/ckl/modules/{fn}", line=t.line)
+            for r, is_list in init.items():
+                if is_list:
+                    ctx.ob("C19.accum", f"modules/{fn}: {f.qual}: list accumulator `{r}` is grown with append / insert_at",
+                           True)
+
+
 def run(ctx):
     model = ctx.model
     names(ctx, model)
+    list_accumulators(ctx, model)
     # ---------------------------------------------------------------- pow
     fp = model.method(P, "FuncPow", "execute")
     g = CFG(fp.node, implicit_exc=False)
